@@ -8,7 +8,7 @@ import prog_gen
 import resolved_io
 import vlib
 
-GEN = []
+GEN = ["GenSrcDigest"]
 TRUSTED = [
     "Coq 8.16.1 kernel; no axioms",
     "coq/Back/IR.v + Back/Emit.v as the model of intermediate.rs + lua.rs: tied byte-for-byte to the real compiler's output on every run (all accepted programs of /repo/tests + generated programs), fed with the real resolver's output through the cfg-guarded hook sylt_compiler::verif::phases",
